@@ -1,4 +1,23 @@
 import Karp.Driver.Proto
+import Karp.Driver.C01
+import Karp.Driver.C02
+import Karp.Driver.C03
+import Karp.Driver.C04
+import Karp.Driver.C05
+import Karp.Driver.C06
+import Karp.Driver.C07
+import Karp.Driver.C08
+import Karp.Driver.C09
+import Karp.Driver.C10
+import Karp.Driver.C11
+import Karp.Driver.C12
+import Karp.Driver.C13
+import Karp.Driver.C14
+import Karp.Driver.C15
+import Karp.Driver.C16
+import Karp.Driver.C17
+import Karp.Driver.C18
+import Karp.Driver.C19
 import Karp.Driver.C20
 
 namespace Karp.Driver
@@ -6,6 +25,25 @@ namespace Karp.Driver
 /-- route `cNN.<name>` to the property's handler -/
 def dispatch (op : String) : Except String Handler :=
   match (op.splitOn ".").head! with
+  | "c01" => pure Karp.Driver.C01.handle
+  | "c02" => pure Karp.Driver.C02.handle
+  | "c03" => pure Karp.Driver.C03.handle
+  | "c04" => pure Karp.Driver.C04.handle
+  | "c05" => pure Karp.Driver.C05.handle
+  | "c06" => pure Karp.Driver.C06.handle
+  | "c07" => pure Karp.Driver.C07.handle
+  | "c08" => pure Karp.Driver.C08.handle
+  | "c09" => pure Karp.Driver.C09.handle
+  | "c10" => pure Karp.Driver.C10.handle
+  | "c11" => pure Karp.Driver.C11.handle
+  | "c12" => pure Karp.Driver.C12.handle
+  | "c13" => pure Karp.Driver.C13.handle
+  | "c14" => pure Karp.Driver.C14.handle
+  | "c15" => pure Karp.Driver.C15.handle
+  | "c16" => pure Karp.Driver.C16.handle
+  | "c17" => pure Karp.Driver.C17.handle
+  | "c18" => pure Karp.Driver.C18.handle
+  | "c19" => pure Karp.Driver.C19.handle
   | "c20" => pure Karp.Driver.C20.handle
   | _ => .error s!"unknown op {op}"
 
